@@ -862,9 +862,9 @@ impl PackageMetadata {
         // After the header entries comes the data section. This stores the data pointed to by
         // the offsets within each index entry.
 
-        let sig_header_start = LEAD_SIZE;
+        let sig_header_start = LEAD_SIZE as u64;
         let sig_header_size = self.signature.size();
-        let padding = self.signature.padding_required();
+        let padding = self.signature.padding_required() as u64;
 
         let header_start = sig_header_start + sig_header_size + padding;
         let header_size = self.header.size();
@@ -873,9 +873,9 @@ impl PackageMetadata {
 
         PackageSegmentOffsets {
             lead: 0,
-            signature_header: sig_header_start as u64,
-            header: header_start as u64,
-            payload: payload_start as u64,
+            signature_header: sig_header_start,
+            header: header_start,
+            payload: payload_start,
         }
     }
 
